@@ -41,6 +41,8 @@ MIN_INSTANCES = 14
 def register_cells(ctx: Ctx, rule: str) -> None:
     fref = f"{ER}.register"
     fn = ctx.repo.func(fref)
+    ctx.require_locals(f"{ER}.get_workers", ["node_keys", "worker_keys"])
+    ctx.require_locals(f"{ER}.get_counters", ["node_keys", "worker_keys", "counter"])
     nd, wk = fn.params()[1], fn.params()[2]
     cell = f"self._registry[{nd}.bridged_form][{wk}.id]"
     views = function_views(ctx, fref, None)
